@@ -933,7 +933,19 @@ func GenExec(t *rapid.T, f Features) *ExecCase {
 		g.stmtBudget = half
 		body = append(body, g.blockNoScope(half, 2)...)
 		g.stmtBudget = save - half
-		body = append(body, &Assign{L: &Index{X: &VarRef{wgVar}, I: &VarRef{lidx}, T: TU32}, R: g.expr(TU32, 3)})
+		slot := &Index{X: &VarRef{wgVar}, I: &VarRef{lidx}, T: TU32}
+		if g.f.Pointers && g.chance(40, "wgptr") && !f.off("ptr.param.workgroup") {
+			// the invocation's slot is written through a helper that takes ptr<workgroup, u32>
+			g.class("fn:ptr-param:workgroup")
+			pp := &Var{Name: g.name("p"), Kind: VParam, T: Ptr("workgroup", TU32)}
+			pv := &Var{Name: g.name("p"), Kind: VParam, T: TU32}
+			wf := &Func{Name: g.name("wgset_"), Params: []*Var{pp, pv}}
+			wf.Body = []Stmt{&Assign{L: &Deref{X: &VarRef{pp}}, R: &VarRef{pv}}}
+			g.mod.Decls = append(g.mod.Decls, wf)
+			body = append(body, &CallStmt{Call: &CallE{Fn: wf, Args: []Expr{&AddrOf{X: slot, Space: "workgroup"}, g.expr(TU32, 3)}}})
+		} else {
+			body = append(body, &Assign{L: slot, R: g.expr(TU32, 3)})
+		}
 		body = append(body, &Barrier{Name: "workgroupBarrier"})
 		nb := &Var{Name: g.name("nb"), Kind: VLet, T: TU32, Init: &Index{X: &VarRef{wgVar},
 			I: &Binary{Op: "%", L: &Binary{Op: "+", L: &VarRef{lidx}, R: &Lit{T: TU32, Bits: 1}, T: TU32}, R: &Lit{T: TU32, Bits: uint32(wg[0] * wg[1] * wg[2])}, T: TU32}, T: TU32}}
